@@ -50,6 +50,20 @@ class UndefT:
     def __repr__(self): return 'UNDEF'
 UNDEF = UndefT()
 
+class PInt:
+    """integer whose bits are only partly defined (e.g. an 8-byte load of a bool followed by padding): val holds the defined
+    bits, mask the positions that are defined. Moves, masks, shifts and truncations keep track; using undefined bits in a decision is reported."""
+    __slots__ = ('val', 'mask', 'bits')
+    def __init__(self, val, mask, bits):
+        self.val = val & mask; self.mask = mask; self.bits = bits
+    def __repr__(self): return 'PInt(%x/%x)' % (self.val, self.mask)
+
+def pint_norm(p):
+    full = (1 << p.bits) - 1
+    if p.mask & full == full: return p.val & full
+    if p.mask & full == 0: return UNDEF
+    return p
+
 class Region:
     __slots__ = ('id', 'size', 'cells', 'live', 'kind', 'name', 'const', 'note')
     def __init__(self, id, size, kind, name):
@@ -209,14 +223,24 @@ class Interp:
         if all(x is None for x in out):
             return UNDEF
         if any(x is None for x in out):
-            # partially initialised (e.g. bool + padding) – treat missing as undef-tainted
-            return UNDEF
+            # partially initialised (e.g. bool + padding): keep the defined bytes
+            val = 0; mask = 0
+            for k, x in enumerate(out):
+                if x is not None:
+                    val |= x << (8 * k); mask |= 0xFF << (8 * k)
+            return PInt(val, mask, 8 * size)
         return int.from_bytes(bytes(out), 'little')
 
     def store(self, addr, size, v):
         r, off = self.region_of(addr, size, 'store')
         if r.const:
             raise MemoryError_('write-to-constant', 'store to constant %s' % r.name, self.where())
+        if type(v) is PInt:
+            self._clear_range(r, off, size)
+            for k in range(size):
+                if (v.mask >> (8 * k)) & 0xFF == 0xFF:
+                    r.cells[off + k] = (1, (v.val >> (8 * k)) & 0xFF)
+            return
         cells = r.cells
         c = cells.get(off)
         if c is not None and c[0] == size:
@@ -761,6 +785,10 @@ class Interp:
         if type(v) is Node:
             if v.sort == 'B': return self.decide(v)
             if v.sort == 'I': return self.decide(S.cmp('ne', v, S.iconst(0, v.width)))
+        if type(v) is PInt:
+            v = pint_norm(PInt(v.val, v.mask, 1))
+            if type(v) is int: return v & 1 == 1
+            v = UNDEF
         if v is UNDEF:
             msg = 'branch on an uninitialised value'
             if self.strict_undef:
@@ -796,9 +824,26 @@ class Interp:
         if pred == 8: return a < b
         return a <= b
 
+    def _known(self, v):
+        if type(v) is Node and self.pathctl is not None:
+            k = self.pathctl.known.get(v.id)
+            if k is not None: return k
+        return v
+
     def icmp_slow(self, pred, a, b, bits):
+        if type(a) is PInt: a = pint_norm(PInt(a.val, a.mask, bits))
+        if type(b) is PInt: b = pint_norm(PInt(b.val, b.mask, bits))
+        if type(a) is PInt or type(b) is PInt:
+            return UNDEF
         if a is UNDEF or b is UNDEF:
             return UNDEF
+        a = self._known(a); b = self._known(b)
+        if self.pathctl is not None and getattr(self.pathctl, 'eager_ints', False):
+            # enumerate symbolic integers as soon as a decision depends on them (keeps loop bounds concrete)
+            if type(a) is Node and a.sort == 'I': a = self.concretize_int(a)
+            if type(b) is Node and b.sort == 'I': b = self.concretize_int(b)
+        if type(a) is int and type(b) is int:
+            return 1 if self.icmp_concrete(pred, a, b, bits) else 0
         ta = type(a); tb = type(b)
         if (ta is Node and a.sort == 'B') or (tb is Node and b.sort == 'B'):
             # comparisons of i1 values
@@ -824,9 +869,14 @@ class Interp:
         raise Unsupported('signed comparison of wide symbolic integers')
 
     def bin_slow(self, op, a, b, bits):
+        if type(a) is PInt or type(b) is PInt:
+            return self.bin_pint(op, a, b, bits)
         if a is UNDEF or b is UNDEF:
             # x * 0, x & 0 are still undef-tainted in our monitor
             return UNDEF
+        a = self._known(a); b = self._known(b)
+        if type(a) is int and type(b) is int:
+            return self.bin_concrete(op, a, b, bits)
         ta = type(a); tb = type(b)
         if bits == 1 or (ta is Node and a.sort == 'B') or (tb is Node and b.sort == 'B'):
             if bits != 1:
@@ -866,6 +916,28 @@ class Interp:
         # fall back: concretize both
         a = self.concretize_int(a); b = self.concretize_int(b)
         return self.bin_concrete(op, a, b, bits)
+
+    def bin_pint(self, op, a, b, bits):
+        full = (1 << bits) - 1
+        def parts(x):
+            if type(x) is PInt: return x.val, x.mask
+            if type(x) is int: return x, full
+            return None
+        pa, pb = parts(a), parts(b)
+        if pa is None or pb is None: return UNDEF
+        (va, ma), (vb, mb) = pa, pb
+        if op == 7:     # and: a bit is defined if both are, or one side is a defined 0
+            mask = (ma & mb) | (ma & ~va) | (mb & ~vb)
+            return pint_norm(PInt(va & vb, mask & full, bits))
+        if op == 8:     # or: defined if both are, or one side is a defined 1
+            mask = (ma & mb) | (ma & va) | (mb & vb)
+            return pint_norm(PInt((va | vb), mask & full, bits))
+        if op == 9:
+            return pint_norm(PInt(va ^ vb, ma & mb & full, bits))
+        if op in (10, 11) and type(b) is int:
+            if op == 10: return pint_norm(PInt((va << b) & full, ((ma << b) | ((1 << b) - 1)) & full, bits))
+            return pint_norm(PInt(va >> b, (ma >> b) | (full & ~(full >> b)), bits))
+        return UNDEF
 
     def bin_concrete(self, op, a, b, bits):
         mask = (1 << bits) - 1
@@ -988,6 +1060,10 @@ class Interp:
     def cast(self, op, v, fb, tb):
         t = type(v)
         if v is UNDEF: return UNDEF
+        if t is PInt:
+            if op == 'trunc': return pint_norm(PInt(v.val, v.mask, tb))
+            if op == 'zext': return pint_norm(PInt(v.val, v.mask | (((1 << tb) - 1) & ~((1 << fb) - 1)), tb))
+            return UNDEF
         if op == 'trunc':
             if t is int: return v & ((1 << tb) - 1)
             if t is Node:
@@ -1312,6 +1388,10 @@ class Interp:
             for x in (a, b):
                 if type(x) is float and (x != x or x in (math.inf, -math.inf)):
                     return a if self.decide(c) else b
+            if self.pathctl is not None and getattr(self.pathctl, 'resolve_selects', False):
+                r = self.pathctl.implied(c)
+                if r is True: return a
+                if r is False: return b
             return S.ite(c, S.R(a), S.R(b))
         if kind == K_INT:
             ta = type(a); tb = type(b)
